@@ -8,6 +8,12 @@ Open Scope Z_scope.
 Lemma ob_accept_loop_calls_never_wait : forallb call_never_waits serve_pre_go_calls = true.
 Proof. vm_compute. reflexivity. Qed.
 
+(* ... and neither do the Accept methods of the listener wrappers (forwarder.Listener,
+   proxyproto.Listener, ratelimit.Listener), which run inside the same loop: they only hand the new
+   connection to wrapper constructors *)
+Lemma ob_listener_accept_calls_nothing : listener_accept_calls = [].
+Proof. vm_compute. reflexivity. Qed.
+
 (* the PROXY header is awaited (first header-reading call) before the handshake / request
    timers of the connection are started, i.e. its timer never runs concurrently with them *)
 Lemma ob_pp_first_touch_is_early : pp_early = true.
